@@ -9,11 +9,12 @@
 //   - a generic JSON tree printer (with seeded layout variants) and parser.
 //
 // Abstract leaves (all strings):
-//   "s0" empty string, "sN" N-th pool string (s1..s6 XML-representable, s7..s11 JSON-only), "=text" the literal text
-//   "i0" 0, "iN" N-th integer of the seed's magnitude profile, "#n" the literal integer n
-//   "f0" 0.0, "fN" N-th pool float        "b0" / "b1" false / true
-//   "t0" zero time, "tN" N-th pool time   ("D:tN" in XML trees: the same instant in the notes date layout)
-//   "?" a concrete value that is not in the image of the tables
+//
+//	"s0" empty string, "sN" N-th pool string (s1..s6 XML-representable, s7..s11 JSON-only), "=text" the literal text
+//	"i0" 0, "iN" N-th integer of the seed's magnitude profile, "#n" the literal integer n
+//	"f0" 0.0, "fN" N-th pool float        "b0" / "b1" false / true
+//	"t0" zero time, "tN" N-th pool time   ("D:tN" in XML trees: the same instant in the notes date layout)
+//	"?" a concrete value that is not in the image of the tables
 package osmdoc
 
 import (
@@ -80,9 +81,9 @@ func NewSymbols(seed int64) *Symbols {
 	case 0:
 		base, step = 1000, 7
 	case 1:
-		base, step = 1<<31 - 4, 3 // straddles 2^31
+		base, step = 1<<31-4, 3 // straddles 2^31
 	default:
-		base, step = 1<<60 + 5, 1 << 20
+		base, step = 1<<60+5, 1<<20
 	}
 	s.ints = []int64{0}
 	for i := 1; i <= nInt; i++ {
